@@ -575,51 +575,108 @@ func CheckSSI(c *Case, h *History) (vs []Violation, judged, ambiguous int) {
 			}
 			continue
 		}
-		mustRefuse, mayConflict := false, false
-		var culprit *txnView
-		for _, u := range committed {
-			if u.t == t {
-				continue
-			}
-			touches := false
-			for _, rd := range v.reads {
-				if _, ok := u.writes[rd.Key]; ok {
-					touches = true
-				}
-			}
-			if !touches {
-				continue
-			}
-			before := u.t.EndRet < t.BeginCall
-			after := u.t.EndCall > t.EndRet
-			if before || after {
-				continue
-			}
-			mayConflict = true
-			if u.t.EndCall > t.BeginRet && u.t.EndRet < t.EndCall {
-				mustRefuse = true
-				culprit = u
-			}
-		}
+		culprit, amb := ssiOverlaps(t, v, committed)
 		switch {
-		case mustRefuse:
+		case culprit != nil:
 			judged++
 			if t.Err != "conflict" {
 				vs = append(vs, Violation{Oracle: "m-ssi", Class: "missed-conflict", Seq: t.EndCall,
 					Msg: fmt.Sprintf("txn %d (client %d) read %v from the store, txn %d committed writes to %v wholly between its Begin and its Commit, yet Commit returned %q",
 						t.ID, t.Client, readKeys(v), culprit.t.ID, culprit.wkeys, t.Err)})
 			}
-		case !mayConflict:
+		case len(amb) == 0:
 			judged++
 			if t.Err != "" {
 				vs = append(vs, Violation{Oracle: "m-ssi", Class: "spurious-" + t.Err, Seq: t.EndCall,
 					Msg: fmt.Sprintf("txn %d (client %d): no committed transaction that overlaps it wrote a key it read (%v), yet Commit returned %q", t.ID, t.Client, readKeys(v), t.Err)})
 			}
 		default:
-			ambiguous++
+			// commits that overlap this transaction's Begin or Commit in real time: decided by
+			// the engine's own timestamps where the run could resolve them (a committed writer
+			// this transaction could not see, ordered before it, must have had it refused)
+			exact := t.Err == "" && t.CommitTs != 0
+			for _, u := range amb {
+				if !exact || u.t.CommitTs == 0 {
+					exact = false
+					break
+				}
+			}
+			if !exact {
+				ambiguous++
+				break
+			}
+			judged++
+			for _, u := range amb {
+				if u.t.CommitTs > t.ReadTs && u.t.CommitTs < t.CommitTs {
+					vs = append(vs, Violation{Oracle: "m-ssi", Class: "missed-conflict", Seq: t.EndCall,
+						Msg: fmt.Sprintf("txn %d (client %d, read timestamp %d, commit timestamp %d) read %v from the store; txn %d committed writes to %v at timestamp %d, which it could not see, before it - yet its Commit returned nil",
+							t.ID, t.Client, t.ReadTs, t.CommitTs, readKeys(v), u.t.ID, u.wkeys, u.t.CommitTs)})
+					break
+				}
+			}
 		}
 	}
 	return
+}
+
+// ssiOverlaps classifies the committed writers of keys that t read from the
+// store by real time: culprit committed wholly between t's Begin and t's Commit
+// (t must be refused); amb are those whose Commit overlaps t's Begin or Commit.
+func ssiOverlaps(t *TxnRec, v *txnView, committed []*txnView) (culprit *txnView, amb []*txnView) {
+	for _, u := range committed {
+		if u.t == t {
+			continue
+		}
+		touches := false
+		for _, rd := range v.reads {
+			if _, ok := u.writes[rd.Key]; ok {
+				touches = true
+			}
+		}
+		if !touches {
+			continue
+		}
+		before := u.t.EndRet < t.BeginCall
+		after := u.t.EndCall > t.EndRet
+		if before || after {
+			continue
+		}
+		if u.t.EndCall > t.BeginRet && u.t.EndRet < t.EndCall {
+			culprit = u
+			continue
+		}
+		amb = append(amb, u)
+	}
+	if culprit != nil {
+		amb = nil
+	}
+	return
+}
+
+// ambiguousPairs lists (t, u) for every committed read-write transaction t and
+// committed writer u that the real-time rule leaves undecided.
+func ambiguousPairs(c *Case, h *History) [][2]*TxnRec {
+	txns := allTxns(h)
+	views := map[*TxnRec]*txnView{}
+	var committed []*txnView
+	for _, t := range txns {
+		views[t] = viewOf(t)
+		if views[t].committed {
+			committed = append(committed, views[t])
+		}
+	}
+	var res [][2]*TxnRec
+	for _, t := range txns {
+		v := views[t]
+		if !t.Finished || !t.Began || !v.committed || len(v.reads) == 0 {
+			continue
+		}
+		_, amb := ssiOverlaps(t, v, committed)
+		for _, u := range amb {
+			res = append(res, [2]*TxnRec{t, u.t})
+		}
+	}
+	return res
 }
 
 func readKeys(v *txnView) []string {
